@@ -40,6 +40,9 @@ type Profile struct {
 	UnknownPropPct int
 	FeeMultiplier  int64
 	AimPct         int  // chance per block that the block time is aimed at a pending maturity / jail expiry (+-1 s)
+	SecondDenom    bool // some genesis accounts also hold a second denomination ("abc"); fees may be offered in it
+	Whale          bool // one account holds ~2^90 tokens and stakes amounts whose power does not fit an int64
+	MinStakeRaises bool // governance may raise pos/StakeMinimum in mid-history
 	NoDAOOwner     bool // genesis leaves the DAO owner empty (the shipped default): nobody may spend DAO funds
 	QueryHeavy     bool // reads are mostly /store/<name>/key queries over interesting keys and heights
 }
@@ -96,6 +99,7 @@ type World struct {
 	StepOverride *int64              // seconds to advance at the next block
 	Forced       []func() *TxSpec    // transactions delivered first in the next block
 	ForcedLabel  []string
+	WhaleActor  *Actor
 	forceUnjail []string // validators whose jail expiry the block time was aimed at: they try to unjail in this block
 }
 
@@ -153,6 +157,11 @@ func NewWorld(seed uint64, p Profile, idx *TxIndex) *World {
 	}
 	min := g.PosParams.StakeMinimum
 	for i, a := range w.All {
+		if p.Whale && i == 2 {
+			g.Accounts = append(g.Accounts, GenAccount{Actor: a, BalanceBig: new(big.Int).Lsh(big.NewInt(1), 90)})
+			w.WhaleActor = a
+			continue
+		}
 		if a.Multi != nil {
 			continue // multisig keys cannot be listed at genesis (auth.ValidateGenesis needs a consensus-style key); funded in block 1
 		}
@@ -160,7 +169,11 @@ func NewWorld(seed uint64, p Profile, idx *TxIndex) *World {
 		if i%5 == 4 {
 			bal = 3*min + r.Int63n(min)
 		}
-		g.Accounts = append(g.Accounts, GenAccount{Actor: a, Balance: bal})
+		ga := GenAccount{Actor: a, Balance: bal}
+		if p.SecondDenom && i%2 == 0 {
+			ga.Extra = 1000000
+		}
+		g.Accounts = append(g.Accounts, ga)
 	}
 	for i := 0; i < p.GenesisVals && i < len(w.Eds)-2; i++ {
 		st := min + 1 + r.Int63n(40*min)
@@ -456,18 +469,43 @@ func (w *World) maybeRead() {
 }
 
 // RandomRead issues one read-only call (Query of several kinds, Info, CheckTx of an old tx).
-func (w *World) RandomRead() {
-	e := w.Env
+func (w *World) RandomRead() { w.RandomReadOn(w.Env) }
+
+// RandomReadOn issues the read on another instance that is in the same state (a twin).
+func (w *World) RandomReadOn(e *Env) {
 	hs := []int64{0, e.H, e.H - 1, e.H - 5, 1, 2, e.H + 3}
 	qh := hs[w.R.Intn(len(hs))]
 	if qh < 0 {
 		qh = 0
 	}
-	if w.P.QueryHeavy && w.R.Chance(85) {
+	if w.P.QueryHeavy && e == w.Env && w.R.Chance(85) {
 		w.storeKeyQuery(qh)
 		return
 	}
-	switch w.R.Intn(9) {
+	switch w.R.Intn(11) {
+	case 9:
+		// single-record custom queries (they go through the keepers' caches)
+		a := w.All[w.R.Intn(len(w.All))]
+		if vals := sortedVals(w.View()); len(vals) > 0 && w.R.Chance(70) {
+			a = w.ByAddr[vals[w.R.Intn(len(vals))].Addr]
+		}
+		if a == nil {
+			a = w.Anchor
+		}
+		kind := []string{"validator", "signingInfo", "account_balance"}[w.R.Intn(3)]
+		var data []byte
+		switch kind {
+		case "validator":
+			data = posTypes.ModuleCdc.MustMarshalJSON(posTypes.NewQueryValidatorParams(a.Addr))
+		case "signingInfo":
+			data = posTypes.ModuleCdc.MustMarshalJSON(posTypes.NewQuerySigningInfoParams(a.Addr))
+		default:
+			data = posTypes.ModuleCdc.MustMarshalJSON(posTypes.QueryAccountBalanceParams{Address: a.Addr})
+		}
+		e.Query(&QuerySpec{Path: "/custom/pos/" + kind, Data: hx(data), Height: qh})
+	case 10:
+		kind := []string{"staked_validators", "unstaking_validators", "unstaked_validators", "signingInfos", "parameters", "stakedPool", "unstakedPool"}[w.R.Intn(7)]
+		e.Query(&QuerySpec{Path: "/custom/pos/" + kind, Data: hx(posTypes.ModuleCdc.MustMarshalJSON(posTypes.NewQueryValidatorsParams(1, 20))), Height: qh})
 	case 0:
 		e.Info()
 	case 1:
@@ -491,10 +529,8 @@ func (w *World) RandomRead() {
 			e.Info()
 		}
 	case 8:
-		// simulate of a fresh valid send
-		spec, _ := w.buildSend(w.View(), ParamsOf(w.View()))
-		if spec != nil {
-			bz, _, _ := spec.Build(e.A.Cdc)
+		// simulate of a fresh transaction of any kind (it would succeed or fail exactly like a delivered one)
+		if bz, _, _ := w.FreshTx(); bz != nil {
 			e.Query(&QuerySpec{Path: "/app/simulate", Data: hx(bz)})
 		}
 	}
